@@ -83,4 +83,10 @@ Fixpoint ssorted_b (l : list nat) : bool :=
   end.
 Definition sorted_keys_b (s : tstate) : bool :=
   forallb (fun c => ssorted_b (fst c) && ssorted_b (fst (snd c)) && ssorted_b (snd (snd c))) (children s).
+
+(* extract_contractions ends with tree.has_preprocessing(): `for node in gen_leaves(): get_legs(node)`
+   (core.py:791, since fix 3484e0c) *)
+Definition touch_leaves (s : tstate) : tstate := fold_left (fun s i => fst (g_legs n s [i])) (seq 0 N) s.
+Definition extract_all (prefer_einsum : bool) (nodes : list (node * (node * node))) (s : tstate) : tstate :=
+  touch_leaves (extract prefer_einsum nodes s).
 End Rec.
